@@ -63,6 +63,8 @@ fn sweep_roots(tier: Tier, w: &World, s0: &Store) -> Vec<(String, HState)> {
         }
         let (c0, d1, c1, d0) = (usd(w, &s, 0, 50_000), usd(w, &s, 1, 10_000) + 1, usd(w, &s, 1, 50_000) + 3, usd(w, &s, 0, 10_000) + 1);
         go(&mut s, Action::Deposit { u: 0, b: 0, amt: c0, up_to_limit: None });
+        // (kept for the debt-free variants below: u0 lends and owes nothing, so that it may take out its whole deposit)
+        let s_before_u0_borrows = s.clone();
         go(&mut s, Action::Borrow { u: 0, b: 1, amt: d1 });
         go(&mut s, Action::Deposit { u: 1, b: 1, amt: c1, up_to_limit: None });
         go(&mut s, Action::Borrow { u: 1, b: 0, amt: d0 });
@@ -74,10 +76,20 @@ fn sweep_roots(tier: Tier, w: &World, s0: &Store) -> Vec<(String, HState)> {
             // still round down and full repayments up for every one of them.
             if name == "sv1" || name == "sv4_3" {
                 let tiny = I80F48::from_bits(1 << 18);
+                let mut s_nd = s_before_u0_borrows.clone();
+                let mut ok_nd = true;
+                for a in [Action::Deposit { u: 1, b: 1, amt: c1, up_to_limit: None }, Action::Borrow { u: 1, b: 0, amt: d0 }] {
+                    ok_nd &= act::apply(w, &mut s_nd, &a).committed;
+                }
                 for (fname, frac) in [("f_tiny", tiny), ("f_00005", I80F48::from_num(0.00005)), ("f_00015", I80F48::from_num(0.00015)), ("f_half", I80F48::from_num(0.5)), ("f_almost1", I80F48::ONE - tiny)] {
-                    let mut t = s.clone();
+                  for debt_free in [false, true] {
+                    if debt_free && !ok_nd {
+                        continue;
+                    }
+                    let mut t = if debt_free { s_nd.clone() } else { s.clone() };
                     let acct = w.users[0].account;
-                    for (b, is_asset) in [(0usize, true), (1usize, false)] {
+                    let legs: Vec<(usize, bool)> = if debt_free { vec![(0usize, true)] } else { vec![(0usize, true), (1usize, false)] };
+                    for (b, is_asset) in legs {
                         let bk = w.banks[b].key;
                         let bank = world::bank(&t, &bk);
                         let sv: I80F48 = if is_asset { bank.asset_share_value.into() } else { bank.liability_share_value.into() };
@@ -103,7 +115,8 @@ fn sweep_roots(tier: Tier, w: &World, s0: &Store) -> Vec<(String, HState)> {
                             }
                         });
                     }
-                    roots.push((format!("{name}:{fname}"), HState { s: t, clock_devs: 0, price_devs: 0, closes: vec![0; nb], forged: true }));
+                    roots.push((format!("{name}:{}{fname}", if debt_free { "debt_free:" } else { "" }), HState { s: t, clock_devs: 0, price_devs: 0, closes: vec![0; nb], forged: true }));
+                  }
                 }
             }
         }
